@@ -714,8 +714,10 @@ class FilterCollector(WrappingCollector):
         restrict = self.restrict
         ftc = top_searcher._filter_to_comb
 
-        self._allow = ftc(allow) if allow else None
-        self._restrict = ftc(restrict) if restrict else None
+        # Test against None, not for truth: an empty set (or the Results of a
+        # search that matched nothing) as "allow" means nothing is allowed
+        self._allow = ftc(allow) if allow is not None else None
+        self._restrict = ftc(restrict) if restrict is not None else None
         self.filtered_count = 0
 
     def all_ids(self):
